@@ -57,4 +57,914 @@ theorem foamHeaderText_eq : foamHeaderText = foamHeader := by
 theorem banner_shape : banner = '/' :: '*' :: (bannerBody ++ ['*', '/']) := by decide +kernel
 theorem sepLine_shape : sepLine = '/' :: '/' :: sepBody := by decide +kernel
 
+
+attribute [local irreducible] foamHeader
+
+/-! ### trailing-space removal leaves the header alone -/
+
+def hdrLines : List Str := (splitNl C10.foamHeaderChars).dropLast
+
+theorem hdrLines_join : hdrLines.flatMap (· ++ ['\n']) = C10.foamHeaderChars := by decide +kernel
+theorem hdrLines_good : ∀ l ∈ hdrLines, C12.goodLineB l = true := by decide +kernel
+theorem hdrChars_noCr : ∀ c ∈ C10.foamHeaderChars, c ≠ '\r' := by decide +kernel
+
+/-- `remove_trailing_spaces` leaves the Foam header as it is -/
+theorem rts_header (t : Str) : removeTrailingSpaces (foamHeader ++ t) = foamHeader ++ removeTrailingSpaces t := by
+  rw [C01.removeTrailingSpaces_eq, C01.removeTrailingSpaces_eq, C10.foamHeader_eq,
+    C01.universalNl_solid _ _ hdrChars_noCr, ← hdrLines_join, C12.rts_lines _ _ hdrLines_good]
+
+theorem rts_nil : removeTrailingSpaces [] = [] := by decide
+
+/-! ### a comment-free document as a commented document -/
+
+mutual
+  def liftV : Src → CSrc
+    | .lit l => .lit l
+    | .dict es => .dict (liftEs es)
+    | .list xs => .list xs
+  def liftEs : SrcEntries → List CItem
+    | [] => []
+    | (k, v) :: es => .entry k (liftV v) :: liftEs es
+end
+
+theorem ctoks_lift : ∀ es : SrcEntries, ctoksItems (liftEs es) = (srcToksEs es).map .tok
+  | [] => by simp only [liftEs, ctoksItems, srcToksEs, List.map_nil]
+  | (k, .lit l) :: es => by
+    simp only [liftEs, liftV, ctoksItems, srcToksEs, List.map_cons, ctoks_lift es]
+  | (k, .dict d) :: es => by
+    simp only [liftEs, liftV, ctoksItems, srcToksEs, List.map_cons, List.map_append, List.map_nil, ctoks_lift es,
+      ctoks_lift d, List.cons_append, List.nil_append, List.append_assoc]
+  | (k, .list xs) :: es => by
+    simp only [liftEs, liftV, ctoksItems, srcToksEs, List.map_cons, List.map_append, List.map_nil, ctoks_lift es,
+      List.cons_append, List.nil_append, List.append_assoc]
+
+theorem wf_lift : ∀ (es : SrcEntries) (d : Nat), CSrcWFItems d (liftEs es) = SrcWFEs d es
+  | [], _ => by simp only [liftEs, CSrcWFItems, SrcWFEs]
+  | (k, .lit l) :: es, d => by simp only [liftEs, liftV, CSrcWFItems, CSrcWFV, SrcWFEs, SrcWFV, wf_lift es d]
+  | (k, .dict dd) :: es, d => by
+    simp only [liftEs, liftV, CSrcWFItems, CSrcWFV, SrcWFEs, SrcWFV, wf_lift es d, wf_lift dd (d + 1)]
+  | (k, .list xs) :: es, d => by simp only [liftEs, liftV, CSrcWFItems, CSrcWFV, SrcWFEs, SrcWFV, wf_lift es d]
+
+theorem plain_lift : ∀ es : SrcEntries, plainItems (liftEs es) = es
+  | [] => by simp only [liftEs, plainItems]
+  | (k, .lit l) :: es => by simp only [liftEs, liftV, plainItems, plainV, plain_lift es]
+  | (k, .dict d) :: es => by simp only [liftEs, liftV, plainItems, plainV, plain_lift es, plain_lift d]
+  | (k, .list xs) :: es => by simp only [liftEs, liftV, plainItems, plainV, plain_lift es]
+
+theorem label_lift : ∀ (es : SrcEntries) (st : CLabelSt), labelCItems st (liftEs es) = (st, es)
+  | [], _ => by simp only [liftEs, labelCItems]
+  | (k, .lit l) :: es, st => by simp only [liftEs, liftV, labelCItems, labelCV, label_lift es]
+  | (k, .dict d) :: es, st => by simp only [liftEs, liftV, labelCItems, labelCV, label_lift es, label_lift d]
+  | (k, .list xs) :: es, st => by simp only [liftEs, liftV, labelCItems, labelCV, label_lift es]
+
+
+/-! ### the written file as a commented document -/
+
+/-- the `FoamFile` sub-dict as the header spells it -/
+def foamFileSrc : SrcEntries :=
+  [("version".toList, .lit (.bare "2.0".toList)), ("format".toList, .lit (.bare "ascii".toList)),
+   ("class".toList, .lit (.bare "dictionary".toList)), ("object".toList, .lit (.bare "foamDict".toList))]
+
+/-- the file `fmtSD .foam` writes, as a commented document: banner, `FoamFile` block, separator line, the entries -/
+def foamDoc (es : SrcEntries) : List CItem :=
+  .blockC bannerBody :: .entry "FoamFile".toList (.dict (liftEs foamFileSrc)) :: .lineC sepBody :: liftEs es
+
+/-- the tokens of the header up to the closing brace of the `FoamFile` block -/
+def hdrToksA : List CTok :=
+  .blockC bannerBody :: .tok (.word "FoamFile".toList) :: .tok (.word ['{']) ::
+    ((srcToksEs foamFileSrc).map .tok ++ [.tok (.word ['}'])])
+
+/-- the gaps in front of these tokens (a line feed is put in front of the whole text) -/
+def hdrGapsA : List Str :=
+  [['\n'], ['\n'], ['\n'],
+   "\n    ".toList, spaces 19, [], "\n    ".toList, spaces 20, [], "\n    ".toList, spaces 21, [],
+   "\n    ".toList, spaces 20, [], ['\n']]
+
+theorem ctoks_foamDoc (es : SrcEntries) :
+    ctoksItems (foamDoc es) = hdrToksA ++ .lineC sepBody :: (srcToksEs es).map .tok := by
+  simp only [foamDoc, ctoksItems, ctoks_lift, hdrToksA, List.cons_append, List.append_assoc, List.nil_append]
+
+theorem hdr_spread : spread (hdrToksA.map CTok.text) hdrGapsA [] ++ '\n' :: sepLine = '\n' :: C10.foamHeaderChars.dropLast := by
+  decide +kernel
+
+theorem hdrA_len : hdrGapsA.length = hdrToksA.length := by decide +kernel
+
+theorem hdrA_ok : GapsOKC (hdrToksA ++ [.lineC sepBody]) (hdrGapsA ++ [['\n']]) [] = true := by decide +kernel
+
+theorem spread_append : ∀ (a ga : List Str) (b gb : List Str) (tail : Str), ga.length = a.length →
+    spread (a ++ b) (ga ++ gb) tail = spread a ga [] ++ spread b gb tail
+  | [], [], _, _, _, _ => by simp [spread]
+  | [], _ :: _, _, _, _, h => by simp at h
+  | _ :: _, [], _, _, _, h => by simp at h
+  | x :: a, g :: ga, b, gb, tail, h => by
+    simp only [List.length_cons, Nat.add_right_cancel_iff] at h
+    simp only [List.cons_append, spread, spread_append a ga b gb tail h, List.append_assoc]
+
+/-- an admissible layout of `a ++ [t]` and one of `t :: rest` that agree on the gap in front of `t` glue together -/
+theorem gapsOKC_glue (t : CTok) (g : Str) (rest : List CTok) (grest : List Str) (tail : Str) :
+    ∀ (a : List CTok) (ga : List Str), ga.length = a.length →
+    GapsOKC (a ++ [t]) (ga ++ [g]) [] = true → GapsOKC (t :: rest) (g :: grest) tail = true →
+    GapsOKC (a ++ t :: rest) (ga ++ g :: grest) tail = true
+  | [], [], _, _, h2 => h2
+  | [], _ :: _, h, _, _ => by simp at h
+  | _ :: _, [], h, _, _ => by simp at h
+  | [x], [gx], _, h1, h2 => by
+    simp only [List.cons_append, List.nil_append, GapsOKC, Bool.and_eq_true] at h1 ⊢
+    exact ⟨⟨h1.1.1, h1.1.2⟩, h2⟩
+  | [x], _ :: _ :: _, h, _, _ => by simp at h
+  | x :: y :: a, [_], h, _, _ => by simp at h
+  | x :: y :: a, gx :: gy :: ga, h, h1, h2 => by
+    simp only [List.length_cons, Nat.add_right_cancel_iff] at h
+    simp only [List.cons_append, GapsOKC, Bool.and_eq_true] at h1 ⊢
+    exact ⟨⟨h1.1.1, h1.1.2⟩, gapsOKC_glue t g rest grest tail (y :: a) (gy :: ga) (by simpa using h) h1.2 h2⟩
+
+/-- **the written file is an admissible layout of `foamDoc`** (with one line feed in front) -/
+theorem foam_layout (X : List STok) (gaps : List Str) (tail : Str) (hg : GapsOKS X gaps = true)
+    (ht : tail.all isWs = true) :
+    ∃ G T, '\n' :: (foamHeader ++ spreadS X gaps tail) = spreadC (hdrToksA ++ .lineC sepBody :: X.map .tok) G T ∧
+      GapsOKC (hdrToksA ++ .lineC sepBody :: X.map .tok) G T = true := by
+  have hsplit : foamHeader = C10.foamHeaderChars.dropLast ++ ['\n'] := by
+    rw [← C10.foamHeader_eq]; exact C10.foamHeader_chars.2.2.2
+  have hnl : isWs '\n' = true := by decide
+  have hspread : ∀ (rest : List CTok) (grest : List Str) (T : Str),
+      spreadC (hdrToksA ++ .lineC sepBody :: rest) (hdrGapsA ++ ['\n'] :: grest) T =
+        '\n' :: (C10.foamHeaderChars.dropLast ++ spreadC rest grest T) := by
+    intro rest grest T
+    unfold spreadC
+    rw [List.map_append, spread_append _ _ _ _ _ (by rw [List.length_map]; exact hdrA_len)]
+    simp only [List.map_cons, spread, CTok.text, ← sepLine_shape]
+    have := hdr_spread
+    rw [← List.cons_append, ← this]
+    simp only [List.append_assoc, List.cons_append, List.nil_append, List.singleton_append]
+  cases X with
+  | nil =>
+    refine ⟨hdrGapsA ++ [['\n']], '\n' :: tail, ?_, ?_⟩
+    · rw [List.map_nil, hspread [] [] ('\n' :: tail), hsplit]
+      simp [spreadS, spreadC, spread]
+    · refine gapsOKC_glue _ _ [] [] _ hdrToksA hdrGapsA hdrA_len hdrA_ok ?_
+      simp [GapsOKC, ht, hnl]
+  | cons t ts =>
+    have hpad := C09.gapsOKC_padG tail ht (t :: ts) gaps hg
+    have hsp := C09.spreadC_padG (t :: ts) gaps tail
+    cases hp : C09.padG (t :: ts) gaps with
+    | nil => cases gaps <;> simp [C09.padG] at hp
+    | cons g0 gs =>
+      rw [hp] at hpad hsp
+      refine ⟨hdrGapsA ++ ['\n'] :: ('\n' :: g0) :: gs, tail, ?_, ?_⟩
+      · rw [hspread, hsplit, ← hsp]
+        simp only [List.map_cons, C12.Stages.spreadC_cons, List.append_assoc, List.cons_append, List.nil_append,
+          List.singleton_append]
+      · refine gapsOKC_glue _ _ _ _ _ hdrToksA hdrGapsA hdrA_len hdrA_ok ?_
+        have h2 := C12.Incl.gapsOKC_nl hpad
+        simp only [List.map_cons] at h2 ⊢
+        simp only [GapsOKC, Bool.and_eq_true]
+        exact ⟨⟨by decide, by simp⟩, h2⟩
+
+
+/-! ### what the reader returns for the written file -/
+
+/-- the sub-dict of the `FoamFile` entry: `{version: 2.0, format: 'ascii', class: 'dictionary', object: 'foamDict'}` -/
+def foamFileDict : Entries :=
+  [(.str "version".toList, .leaf (.float "2.0".toList)), (.str "format".toList, .leaf (.str "ascii".toList)),
+   (.str "class".toList, .leaf (.str "dictionary".toList)), (.str "object".toList, .leaf (.str "foamDict".toList))]
+
+/-- the `FoamFile` entry -/
+def foamFileEntry : Key × Val := (.str "FoamFile".toList, .dict foamFileDict)
+
+/-- the placeholder entry of line comment number `i` -/
+def lineEntry (i : Nat) : Key × Val := (.str (linePh i), .leaf (.str (linePh i)))
+
+/-- the SDict the reader returns for a written file: placeholder entry of the banner (`BLOCKCOMMENT000000`), the
+    `FoamFile` entry, the placeholder entry of the separator line (`LINECOMMENT%06d`, id `i` drawn from the counter),
+    then the data; the banner under id 0 in the block-comment table, the separator line under id `i` in the
+    line-comment table -/
+def foamSD (i : Nat) (D : Entries) : SD :=
+  { data := C12.hdrEntry :: foamFileEntry :: lineEntry i :: D, lineC := [(i, sepLine)], blockC := [(0, banner)] }
+
+/-- an entry in front whose key no entry of the document types to is left alone by the document's meaning -/
+theorem denSrc_cons_ne (k0 : Key) (v0 : Val) : ∀ (es : SrcEntries) (acc : Entries),
+    (∀ e ∈ es, keyOfScalar (parseKey e.1) ≠ some k0) →
+    denSrcEs es ((k0, v0) :: acc) = (k0, v0) :: denSrcEs es acc
+  | [], _, _ => by simp only [denSrcEs]
+  | (k, v) :: es, acc, h => by
+    have hk := h (k, v) List.mem_cons_self
+    have hes : ∀ e ∈ es, keyOfScalar (parseKey e.1) ≠ some k0 := fun e he => h e (List.mem_cons_of_mem _ he)
+    simp only [denSrcEs]
+    cases hkey : keyOfScalar (parseKey k) with
+    | none => simp only []; exact denSrc_cons_ne k0 v0 es acc hes
+    | some key =>
+      have hne : k0 ≠ key := fun e => hk (by rw [hkey, e])
+      simp only []
+      rw [C12.setKey_cons_ne hne]
+      exact denSrc_cons_ne k0 v0 es _ hes
+
+theorem wf_mem_word {d : Nat} : ∀ {es : SrcEntries}, SrcWFEs d es = true → ∀ e ∈ es, isSrcWord e.1 = true
+  | [], _, e, he => by cases he
+  | (k, v) :: es, h, e, he => by
+    obtain ⟨hk, _, _, _, hes⟩ := C12.wf_cons h
+    rcases List.mem_cons.mp he with rfl | he
+    · exact hk
+    · exact wf_mem_word hes e he
+
+/-- no key of a well-formed document types to a placeholder word -/
+theorem wf_ne_ph {d : Nat} {es : SrcEntries} (h : SrcWFEs d es = true) {w : Str} (hw : isPhTok w = true) :
+    ∀ e ∈ es, keyOfScalar (parseKey e.1) ≠ some (.str w) := by
+  intro e he hkey
+  have hk := wf_mem_word h e he
+  rcases C02.Main.typedKey_cases hk hkey with ⟨z, hz⟩ | hz
+  · cases hz
+  · have e' : w = e.1 := by injection hz
+    have := (C02.srcWord_facts hk).2.1
+    rw [← e', hw] at this
+    cases this
+
+theorem sel_noPh {k : Key} (h : C07.isPhKey k = false) :
+    C12W.selB k = false ∧ C12W.selI k = false ∧ C12W.selL k = false := by
+  cases k with
+  | int z => exact ⟨rfl, rfl, rfl⟩
+  | str x =>
+    simp only [C07.isPhKey, Bool.or_eq_false_iff] at h
+    simp only [C12W.selB, C12W.selI, C12W.selL, h.1.1, h.1.2, h.2, Bool.not_false, Bool.and_false, Bool.and_self]
+    exact ⟨trivial, trivial, trivial⟩
+
+/-- a level without placeholder keys and without repeated keys: `_clean_data` has nothing to do -/
+theorem levelFix_noPh (s : SD) (D : Entries) (hp : C07.NoPhEs D) (hn : (keys D).Nodup) : C12W.levelFix s D := by
+  have hk := C12.noPh_keys hp
+  have hB : (keys D).filter C12W.selB = [] := List.filter_eq_nil_iff.mpr fun k hk' => by rw [(sel_noPh (hk k hk')).1]; simp
+  have hI : (keys D).filter C12W.selI = [] := List.filter_eq_nil_iff.mpr fun k hk' => by rw [(sel_noPh (hk k hk')).2.1]; simp
+  have hL : (keys D).filter C12W.selL = [] := List.filter_eq_nil_iff.mpr fun k hk' => by rw [(sel_noPh (hk k hk')).2.2]; simp
+  refine ⟨?_, hI, ?_, hn⟩
+  · rw [hB]; exact List.nodup_nil
+  · rw [hL]; exact List.nodup_nil
+
+theorem levels_noPh (s : SD) : ∀ D : Entries, C07.NoPhEs D → NodupKeysEs D → C12W.allLevels (C12W.levelFix s) D
+  | [], _, _ => by simp only [C12W.allLevels]
+  | (k, .leaf x) :: r, hp, hn => by
+    simp only [C07.NoPhEs, NodupKeysEs] at hp hn
+    simp only [C12W.allLevels]
+    exact levels_noPh s r hp.2.2 hn.2
+  | (k, .list xs) :: r, hp, hn => by
+    simp only [C07.NoPhEs, NodupKeysEs] at hp hn
+    simp only [C12W.allLevels]
+    exact levels_noPh s r hp.2.2 hn.2
+  | (k, .dict sub) :: r, hp, hn => by
+    simp only [C07.NoPhEs, C07.NoPhV, NodupKeysEs, NodupKeysV] at hp hn
+    simp only [C12W.allLevels]
+    exact ⟨⟨levelFix_noPh s sub hp.2.1 hn.1.1, levels_noPh s sub hp.2.1 hn.1.2⟩, levels_noPh s r hp.2.2 hn.2⟩
+
+theorem linePh_isPh {i : Nat} (hi : i ≤ 999999) : C07.isPhKey (.str (linePh i)) = true := by
+  have := C12W.containsPh_own true hi
+  simp only [C07.isPhKey, Bool.or_eq_true]
+  exact Or.inr this
+
+theorem foamFile_facts :
+    isPhTok "FoamFile".toList = false ∧
+    keyOfScalar (parseKey "FoamFile".toList) = some (.str "FoamFile".toList) ∧
+    denPV (.dict foamFileSrc) = .dict foamFileDict ∧
+    C07.isPhKey (.str "FoamFile".toList) = false ∧
+    Key.str "FoamFile".toList ≠ .str C12.hdrPh := by
+  refine ⟨by decide +kernel, by decide +kernel, by decide +kernel, by decide +kernel, ?_⟩
+  rw [C12.hdrPh_eq]; decide
+
+theorem hdrPh_isPhTok : isPhTok C12.hdrPh = true := C12W.isPhTok_ph false 0
+
+theorem linePh_ne (i : Nat) : Key.str (linePh i) ≠ .str C12.hdrPh ∧ Key.str (linePh i) ≠ .str "FoamFile".toList := by
+  have e : linePh i = 'L' :: ("INECOMMENT".toList ++ padSix i) := rfl
+  rw [e, C12.hdrPh_eq]
+  constructor <;> (intro h; injection h with h; injection h with h _; cases h)
+
+theorem foamFileDict_ok : C07.NoPhEs foamFileDict ∧ (keys foamFileDict).Nodup ∧ NodupKeysEs foamFileDict := by
+  refine ⟨?_, by decide, ?_⟩
+  · simp only [foamFileDict, C07.NoPhEs, C07.NoPhV, and_true]
+    decide +kernel
+  · simp only [foamFileDict, NodupKeysEs, NodupKeysV, and_true]
+
+/-- `_clean` leaves the SDict of a written file alone -/
+theorem foamSD_clean {i : Nat} (hi : i ≤ 999999) {D : Entries} (hp : C07.NoPhEs D) (hn : NodupKeysV (.dict D))
+    (hff : Key.str "FoamFile".toList ∉ keys D) : (foamSD i D).clean = foamSD i D := by
+  have hk := C12.noPh_keys hp
+  have hblk : C12.hdrEntry.1 = .str (C12W.phWord false 0) := rfl
+  have hln : (lineEntry i).1 = .str (C12W.phWord true i) := rfl
+  have hselD : ∀ sel : Key → Bool, (∀ k, C07.isPhKey k = false → sel k = false) → (keys D).filter sel = [] :=
+    fun sel h => List.filter_eq_nil_iff.mpr fun k hk' => by rw [h k (hk k hk')]; simp
+  have hkeys : keys (foamSD i D).data =
+      .str (C12W.phWord false 0) :: .str "FoamFile".toList :: .str (C12W.phWord true i) :: keys D := rfl
+  have cBb : containsPh kwBlock (C12W.phWord false 0) = true := C12W.containsPh_own false (by omega)
+  have cLl : containsPh kwLine (C12W.phWord true i) = true := C12W.containsPh_own true hi
+  have cBl : containsPh kwBlock (C12W.phWord true i) = false := C12W.containsPh_block_line i
+  have cIl : containsPh kwIncl (C12W.phWord true i) = false := C12W.containsPh_incl_ph true i
+  have cff : C07.isPhKey (.str "FoamFile".toList) = false := foamFile_facts.2.2.2.1
+  obtain ⟨fB, fI, fL⟩ := sel_noPh cff
+  have sBb : C12W.selB (.str (C12W.phWord false 0)) = true := cBb
+  have sBl : C12W.selB (.str (C12W.phWord true i)) = false := cBl
+  have sIb : C12W.selI (.str (C12W.phWord false 0)) = false := by
+    show (!containsPh kwBlock _ && containsPh kwIncl _) = false
+    rw [cBb]; rfl
+  have sIl : C12W.selI (.str (C12W.phWord true i)) = false := by
+    show (!containsPh kwBlock _ && containsPh kwIncl _) = false
+    rw [cBl, cIl]; rfl
+  have sLb : C12W.selL (.str (C12W.phWord false 0)) = false := by
+    show (!containsPh kwBlock _ && !containsPh kwIncl _ && containsPh kwLine _) = false
+    rw [cBb]; rfl
+  have sLl : C12W.selL (.str (C12W.phWord true i)) = true := by
+    show (!containsPh kwBlock _ && !containsPh kwIncl _ && containsPh kwLine _) = true
+    rw [cBl, cIl, cLl]; rfl
+  have single : ∀ (f : Key → Option Str) (a : Key), (List.filterMap f [a]).Nodup := by
+    intro f a
+    cases h : f a <;> simp [List.filterMap, h]
+  apply C12W.clean_fix
+  · refine ⟨?_, ?_, ?_, ?_⟩
+    · rw [hkeys]
+      simp only [List.filter_cons, sBb, sBl, fB, if_true, Bool.false_eq_true, if_false,
+        hselD C12W.selB fun k h => (sel_noPh h).1]
+      exact single _ _
+    · rw [hkeys]
+      simp only [List.filter_cons, sIb, sIl, fI, Bool.false_eq_true, if_false,
+        hselD C12W.selI fun k h => (sel_noPh h).2.1]
+    · rw [hkeys]
+      simp only [List.filter_cons, sLb, sLl, fL, if_true, Bool.false_eq_true, if_false,
+        hselD C12W.selL fun k h => (sel_noPh h).2.2]
+      exact single _ _
+    · rw [hkeys]
+      have h1 : Key.str (C12W.phWord false 0) ∉ keys D := C12.hdr_not_mem hp
+      have h3 : Key.str (C12W.phWord true i) ∉ keys D := fun hm => by
+        have := hk _ hm
+        rw [show C12W.phWord true i = linePh i from rfl, linePh_isPh hi] at this
+        cases this
+      have n1 := (linePh_ne i).1
+      have n2 := (linePh_ne i).2
+      have n3 := foamFile_facts.2.2.2.2
+      refine List.nodup_cons.mpr ⟨?_, List.nodup_cons.mpr ⟨?_, List.nodup_cons.mpr ⟨h3, hn.1⟩⟩⟩
+      · simp only [List.mem_cons, not_or]
+        exact ⟨fun e => n3 e.symm, fun e => n1 e.symm, h1⟩
+      · simp only [List.mem_cons, not_or]
+        exact ⟨fun e => n2 e.symm, hff⟩
+  · show C12W.allLevels (C12W.levelFix (foamSD i D)) (C12.hdrEntry :: foamFileEntry :: lineEntry i :: D)
+    simp only [C12.hdrEntry, foamFileEntry, lineEntry, C12W.allLevels]
+    exact ⟨⟨levelFix_noPh _ _ foamFileDict_ok.1 foamFileDict_ok.2.1, levels_noPh _ _ foamFileDict_ok.1 foamFileDict_ok.2.2⟩,
+      levels_noPh _ _ hp hn.2⟩
+
+
+/-- **the meaning of `foamDoc es`**: the three header entries in front of the meaning of `es`, the two comments in
+    the tables -/
+theorem denC_foamDoc {c : Counter} {es : SrcEntries} {Dn : Entries} (hc : C13.ValidCounter Gen.counterLimit c)
+    (hwf : SrcWFEs 1 es = true) (hden : denSrcEs es [] = Dn)
+    (hffs : ∀ e ∈ es, keyOfScalar (parseKey e.1) ≠ some (.str "FoamFile".toList))
+    (hp : C07.NoPhEs Dn) (hn : NodupKeysV (.dict Dn)) (hff : Key.str "FoamFile".toList ∉ keys Dn) :
+    denC c (foamDoc es) = foamSD (Counter.next Gen.counterLimit c).1 Dn := by
+  have hi : (Counter.next Gen.counterLimit c).1 ≤ 999999 := C13.next_le hc
+  simp only [denC, foamDoc, labelCItems, labelCV, label_lift]
+  generalize (Counter.next Gen.counterLimit c).1 = i at hi ⊢
+  obtain ⟨f1, f2, f3, _, f5⟩ := foamFile_facts
+  have hb : isPhTok (blockPh ([] : Tbl Str).length) = true := C12W.isPhTok_ph false 0
+  have hl : isPhTok (linePh i) = true := C12W.isPhTok_ph true i
+  have hdata : denPEs ((blockPh ([] : Tbl Str).length, Src.lit (Lit.bare (blockPh ([] : Tbl Str).length))) ::
+      ("FoamFile".toList, Src.dict foamFileSrc) :: (linePh i, Src.lit (Lit.bare (linePh i))) :: es) [] =
+      C12.hdrEntry :: foamFileEntry :: lineEntry i :: Dn := by
+    rw [C12.denPEs_cons_ph hb, C12.denPEs_cons f1 f2, C12.denPEs_cons_ph hl, C12.denPEs_plain es 1 _ hwf, f3]
+    have e : setKey (Key.str (linePh i)) (Val.leaf (Scalar.str (linePh i)))
+        (setKey (Key.str "FoamFile".toList) (Val.dict foamFileDict)
+          (setKey (Key.str (blockPh ([] : Tbl Str).length)) (Val.leaf (Scalar.str (blockPh ([] : Tbl Str).length))) [])) =
+        [C12.hdrEntry, foamFileEntry, lineEntry i] := by
+      have e0 : blockPh ([] : Tbl Str).length = C12.hdrPh := rfl
+      rw [e0]
+      simp only [setKey, (linePh_ne i).1.symm, (linePh_ne i).2.symm, f5.symm, if_false]
+      rfl
+    rw [e]
+    simp only [C12.hdrEntry, foamFileEntry, lineEntry]
+    rw [denSrc_cons_ne _ _ es _ (wf_ne_ph hwf hdrPh_isPhTok), denSrc_cons_ne _ _ es _ hffs,
+      denSrc_cons_ne _ _ es _ (wf_ne_ph hwf hl), hden]
+  rw [hdata]
+  have htab : (SD.mk (C12.hdrEntry :: foamFileEntry :: lineEntry i :: Dn) []
+      (Tbl.set i ('/' :: '/' :: sepBody) []) ([] ++ [(([] : Tbl Str).length, '/' :: '*' :: bannerBody ++ ['*', '/'])]) []) =
+      foamSD i Dn := by
+    simp only [foamSD, Tbl.set, List.nil_append, List.length_nil, ← sepLine_shape]
+    rw [banner_shape]
+    rfl
+  rw [htab]
+  exact foamSD_clean hi hp hn hff
+
+
+theorem wf_foamDoc {es : SrcEntries} (h : SrcWFEs 1 es = true) : CSrcWFItems 1 (foamDoc es) = true := by
+  simp only [foamDoc, CSrcWFItems, CSrcWFV, wf_lift, h, Bool.and_true]
+  decide +kernel
+
+theorem plain_foamDoc (es : SrcEntries) :
+    plainItems (foamDoc es) = ("FoamFile".toList, .dict foamFileSrc) :: es := by
+  simp only [foamDoc, plainItems, plainV, plain_lift]
+
+theorem count_foamDoc (es : SrcEntries) :
+    C02.countQuotedEs (plainItems (foamDoc es)) = C02.countQuotedEs es := by
+  rw [plain_foamDoc]
+  simp only [C02.countQuotedEs, C02.countQuotedV, foamFileSrc, Nat.zero_add, Nat.add_zero]
+
+/-- the dict has no top-level key `FoamFile` (the writer's own `FoamFile` block would be overwritten by it on reading) -/
+def NoFoamFileKey (d : Entries) : Prop := ∀ e ∈ d, e.1 ≠ .str "FoamFile".toList
+
+instance (d : Entries) : Decidable (NoFoamFileKey d) := by unfold NoFoamFileKey; infer_instance
+
+theorem mem_srcOfEs (fl : Flavor) : ∀ {D : Entries} {e : Str × Src}, e ∈ srcOfEs fl D → ∃ p ∈ D, e.1 = keyStr p.1
+  | [], _, h => by simp [srcOfEs] at h
+  | (k, v) :: D, e, h => by
+    simp only [srcOfEs, List.mem_cons] at h
+    rcases h with rfl | h
+    · exact ⟨(k, v), List.mem_cons_self, rfl⟩
+    · obtain ⟨p, hp, he⟩ := mem_srcOfEs fl h
+      exact ⟨p, List.mem_cons_of_mem _ hp, he⟩
+
+/-- the facts about a dict of the Foam value domain the reader theorem needs -/
+theorem dom_facts {D : Entries} (hdom : DomC01 .foam D = true) (hu : C10.NoUnderscoreEs D) (hff : NoFoamFileKey D) :
+    SrcWFEs 1 (srcOfEs .foam D) = true ∧ denSrcEs (srcOfEs .foam D) [] = normEs D ∧
+    (∀ e ∈ srcOfEs .foam D, keyOfScalar (parseKey e.1) ≠ some (.str "FoamFile".toList)) ∧
+    C07.NoPhEs (normEs D) ∧ NodupKeysV (.dict (normEs D)) ∧ Key.str "FoamFile".toList ∉ keys (normEs D) ∧
+    C02.DocKeysAbsent (plainItems (foamDoc (srcOfEs .foam D))) := by
+  have hd : domEs .foam 1 D = true := by
+    simp only [DomC01, Bool.and_eq_true] at hdom; exact hdom.1
+  have hk := C01.domEs_keys hd
+  obtain ⟨hp, hn⟩ := C10.norm_invariants_foam hdom
+  refine ⟨C10.Foam.srcOf_wf_f 1 D hd, C10.Foam.den_written_f hdom, ?_, hp, hn, ?_, ?_⟩
+  · intro e he hkey
+    obtain ⟨p, hpD, hek⟩ := mem_srcOfEs .foam he
+    rw [hek, C01.domKey_types_back (hk p hpD)] at hkey
+    exact hff p hpD (by injection hkey)
+  · rw [C01.keys_normEs]
+    intro hm
+    obtain ⟨p, hpD, hpk⟩ := List.mem_map.mp hm
+    exact hff p hpD hpk
+  · rw [plain_foamDoc]
+    intro e he
+    rcases List.mem_cons.mp he with rfl | he
+    · exact ⟨by decide, by decide⟩
+    · obtain ⟨p, hpD, hek⟩ := mem_srcOfEs .foam he
+      have h1 := C10.mem_noUnderscore hu p hpD
+      rw [C10.Foam.formatKey_eq_keyStr_f (hk p hpD), ← hek] at h1
+      exact ⟨fun e' => h1 (by rw [e']; rfl), fun e' => h1 (by rw [e']; rfl)⟩
+
+/-- **the reader on the written text.**  For a dict `D` of the Foam value domain without private keys and without a
+    top-level key `FoamFile`: the text `foamHeader ++ fmtPlain .foam D` is read (comments on) as `foamSD i (normEs D)`,
+    `i` the id the counter hands out first (it goes to the separator line; the string literals of `D` follow). -/
+theorem read_foam_parse {D : Entries} {c : Counter} (dir : Str)
+    (hdom : DomC01 .foam D = true) (hu : C10.NoUnderscoreEs D) (hff : NoFoamFileKey D)
+    (hn : C02.countQuotedEs (srcOfEs .foam D) ≤ Gen.counterLimit + 1) (hc : C13.ValidCounter Gen.counterLimit c) :
+    ∃ c', C13.ValidCounter Gen.counterLimit c' ∧
+      parseNative true dir c (foamHeader ++ fmtPlain .foam D) =
+        .ok (foamSD (Counter.next Gen.counterLimit c).1 (normEs D), c') := by
+  obtain ⟨hwf, hden, hffs, hp, hnd, hffk, hdk⟩ := dom_facts hdom hu hff
+  obtain ⟨gaps, tail, e, hg, ht⟩ := C10.Foam.fmtPlain_is_layout_f hdom hu
+  obtain ⟨G, T, etext, hG⟩ := foam_layout _ gaps tail hg ht
+  rw [← ctoks_foamDoc] at etext hG
+  have hread := C12.C12_read_commented (items := foamDoc (srcOfEs .foam D)) dir c (wf_foamDoc hwf) hG
+    (fun h => by simp [foamDoc] at h) hc (by rw [count_foamDoc]; exact hn) hdk
+  rw [← etext, C12W.parseNative_nl, ← e, denC_foamDoc hc hwf hden hffs hp hnd hffk] at hread
+  refine ⟨_, ?_, hread⟩
+  apply C02.adv_valid
+  simp only [foamDoc, labelCItems, labelCV, label_lift]
+  exact C13.next_valid hc
+
+
+/-! ### the writer on the SDict the reader returns -/
+
+theorem phWord_format_f (l : Bool) (i : Nat) : formatString .foam (C12W.phWord l i) = C12W.phWord l i := by
+  refine C04.formatString_of_bare ⟨C12W.phWord_ne l i, ?_, ?_, ?_⟩
+  · cases hc : (C12W.phWord l i).contains '$' with
+    | false => rfl
+    | true => exact absurd rfl (C12W.phWord_chars l i _ (List.contains_iff_mem.mp hc)).2.2.2.1
+  · simp only [List.all_eq_true, Bool.and_eq_true, Bool.not_eq_true']
+    exact fun c hc => ⟨(C12W.phWord_chars l i c hc).2.2.1, (C12W.phWord_chars l i c hc).2.2.2.2.1⟩
+  · apply C01.startsInclude_of_head
+    intro h
+    exact (C12W.phWord_chars l i '#' (List.mem_of_mem_head? h)).2.2.2.2.2.1 rfl
+
+/-- a placeholder entry is written as one line -/
+theorem fmt_ph_line (l : Bool) {i : Nat} (hi : i ≤ 999999) (rest : Entries) :
+    fmtEntries .foam 0 ((.str (C12W.phWord l i), .leaf (.str (C12W.phWord l i))) :: rest) =
+      [] ++ (C12W.kwOf l ++ padSix i) ++ spaces (if l then 13 else 12) ++ (C12W.kwOf l ++ padSix i) ++ [';'] ++
+        ('\n' :: fmtEntries .foam 0 rest) := by
+  have e : C12W.kwOf l ++ padSix i = C12W.phWord l i := rfl
+  rw [e]
+  simp only [fmtEntries, fline, formatKey, formatScalar, phWord_format_f, C12W.phWord_length l hi]
+  cases l <;> simp [spaces, List.replicate]
+
+/-- the `FoamFile` entry is written as the `FoamFile` block of the header -/
+theorem fmt_foamFile (rest : Entries) :
+    fmtEntries .foam 0 (foamFileEntry :: rest) = foamFileText ++ fmtEntries .foam 0 rest := by
+  have e : fline 0 (keyStr (.str "FoamFile".toList)) ++ fline 0 ['{'] ++ fmtEntries .foam 1 foamFileDict ++ fline 0 ['}'] =
+      foamFileText := by
+    simp only [foamFileDict, fmtEntries, formatKey, keyStr, formatScalar]
+    decide +kernel
+  simp only [foamFileEntry, fmtEntries]
+  rw [e]
+
+theorem noInfix_append_of_notMem {c : Char} {p' : Str} : ∀ {x y : Str}, c ∉ x → isInfix (c :: p') y = false →
+    isInfix (c :: p') (x ++ y) = false
+  | [], _, _, hy => hy
+  | a :: x, y, hx, hy => by
+    have ha : c ≠ a := fun e => hx (by rw [e]; exact List.mem_cons_self)
+    have hx' : c ∉ x := fun h => hx (List.mem_cons_of_mem _ h)
+    rw [List.cons_append, C02.isInfix_cons, C02.isPrefixOf_cc, noInfix_append_of_notMem hx' hy]
+    simp [ha]
+
+theorem banner_facts : containsCpp banner = true ∧ isInfix "OpenFOAM".toList banner = true ∧ banner ≠ [] ∧
+    'L' ∉ banner ++ '\n' :: foamFileText ∧ 'B' ∉ '\n' :: foamFileText := by decide +kernel
+
+theorem makeDefault_banner : makeDefaultBlockComment .foam banner = banner := by
+  rw [C10.makeDefault_foam_of_cpp banner_facts.1, banner_facts.2.1]; rfl
+
+/-- the raw text of a dict of the Foam domain contains no `COMMENT` -/
+theorem dom_noComment {D : Entries} (h : DomC01 .foam D = true) :
+    isInfix C12.kwComment (fmtEntries .foam 0 D) = false := by
+  obtain ⟨gaps, tail, e, hg, ht⟩ := C10.Foam.fmt_is_layout_f h
+  have hd : domEs .foam 1 D = true := by
+    simp only [DomC01, Bool.and_eq_true] at h; exact h.1
+  rw [e]
+  exact C12.noComment_spread _ gaps tail (C02.srcToks_ok 1 _ (C10.Foam.srcOf_wf_f 1 D hd)) hg ht
+
+/-- the SDict the reader returns has no private key -/
+theorem foamSD_noUnderscore {i : Nat} {D : Entries} (hu : C10.NoUnderscoreEs D) :
+    C10.NoUnderscoreEs (foamSD i D).data := by
+  have hph : ∀ l j, (formatKey .foam (.str (C12W.phWord l j))).head? ≠ some '_' := by
+    intro l j
+    show (formatString .foam (C12W.phWord l j)).head? ≠ some '_'
+    rw [phWord_format_f]
+    cases l
+    · show (('B' :: ("LOCKCOMMENT".toList ++ padSix j)) : Str).head? ≠ some '_'
+      simp
+    · show (('L' :: ("INECOMMENT".toList ++ padSix j)) : Str).head? ≠ some '_'
+      simp
+  show C10.NoUnderscoreEs (C12.hdrEntry :: foamFileEntry :: lineEntry i :: D)
+  simp only [C12.hdrEntry, foamFileEntry, foamFileDict, lineEntry, C10.NoUnderscoreEs, C10.NoUnderscoreV]
+  exact ⟨hph false 0, trivial, by decide +kernel,
+    ⟨by decide +kernel, trivial, by decide +kernel, trivial, by decide +kernel, trivial, by decide +kernel, trivial, trivial⟩,
+    hph true i, trivial, hu⟩
+
+theorem foamSD_hoist {i : Nat} {D : Entries} (hk : ∀ k ∈ keys D, C07.isPhKey k = false) :
+    hoistPlaceholders (foamSD i D).data = (foamSD i D).data := by
+  have hR : ∀ e ∈ foamFileEntry :: lineEntry i :: D,
+      (match e.1 with | .str k => containsPh kwBlock k | _ => false) = false ∧
+      (match e.1 with | .str k => containsPh kwIncl k | _ => false) = false := by
+    intro e he
+    rcases List.mem_cons.mp he with rfl | he
+    · exact ⟨by decide +kernel, by decide +kernel⟩
+    · rcases List.mem_cons.mp he with rfl | he
+      · exact ⟨C12W.containsPh_block_line i, C12W.containsPh_incl_ph true i⟩
+      · have := hk e.1 (List.mem_map_of_mem he)
+        cases hk1 : e.1 with
+        | int z => exact ⟨rfl, rfl⟩
+        | str x =>
+          rw [hk1] at this
+          simp only [C07.isPhKey, Bool.or_eq_false_iff] at this
+          exact ⟨this.1.1, this.1.2⟩
+  have h : hoistPlaceholders (foamFileEntry :: lineEntry i :: D) = foamFileEntry :: lineEntry i :: D := by
+    unfold hoistPlaceholders
+    exact C01.filter3_id _ _ _ (fun e he => (hR e he).1) (fun e he => (hR e he).2)
+  show hoistPlaceholders (C12.hdrEntry :: foamFileEntry :: lineEntry i :: D) = C12.hdrEntry :: foamFileEntry :: lineEntry i :: D
+  generalize foamFileEntry :: lineEntry i :: D = R at h ⊢
+  unfold hoistPlaceholders at h ⊢
+  simp only [List.filter_cons, C12.hdrEntry, C12.hdrPh_block, if_true, Bool.not_true, Bool.false_and,
+    Bool.false_eq_true, if_false, List.cons_append]
+  rw [h]
+
+/-- **the second write**: the SDict read from a written file is written as the header followed by the plain text of
+    its data — the banner comment is an own ` C++ ` header that names OpenFOAM, so nothing is put in front; the
+    `FoamFile` entry is written as the `FoamFile` block; the separator comment goes back to its line -/
+theorem write_foamSD {i : Nat} (hi : i ≤ 999999) {D : Entries} (hdom : DomC01 .foam D = true)
+    (hu : C10.NoUnderscoreEs D) (hk : ∀ k ∈ keys D, C07.isPhKey k = false) :
+    fmtSD .foam (foamSD i D) = some (foamHeader ++ fmtPlain .foam D) := by
+  have hnc := dom_noComment hdom
+  have hnoPh := C12W.noPh_of_noComment hnc
+  obtain ⟨bcpp, bof, bne, bL, bB⟩ := banner_facts
+  -- the raw text
+  have hraw : fmtEntries .foam 0 (foamSD i D).data =
+      [] ++ (kwBlock ++ padSix 0) ++ spaces 12 ++ (kwBlock ++ padSix 0) ++ [';'] ++
+        (('\n' :: foamFileText) ++ ((kwLine ++ padSix i) ++ spaces 13 ++ (kwLine ++ padSix i) ++ [';'] ++
+          ('\n' :: fmtEntries .foam 0 D))) := by
+    show fmtEntries .foam 0 ((.str (C12W.phWord false 0), .leaf (.str (C12W.phWord false 0))) :: foamFileEntry ::
+      (.str (C12W.phWord true i), .leaf (.str (C12W.phWord true i))) :: D) = _
+    rw [fmt_ph_line false (by omega), fmt_foamFile, fmt_ph_line true hi]
+    simp [C12W.kwOf]
+  -- block comments
+  have hpostB : isInfix (kwBlock ++ padSix 0) (('\n' :: foamFileText) ++ ((kwLine ++ padSix i) ++ spaces 13 ++
+      (kwLine ++ padSix i) ++ [';'] ++ ('\n' :: fmtEntries .foam 0 D))) = false := by
+    have e : kwBlock ++ padSix 0 = 'B' :: ("LOCKCOMMENT".toList ++ padSix 0) := rfl
+    have hB1 : 'B' ∉ ('\n' :: foamFileText) ++ ((kwLine ++ padSix i) ++ spaces 13 ++ (kwLine ++ padSix i) ++ [';'] ++ ['\n']) := by
+      have hl := C12W.linePh_no_B i
+      have hs : 'B' ∉ spaces 13 := by decide
+      rw [show kwLine ++ padSix i = C12W.phWord true i from rfl]
+      generalize C12W.phWord true i = P at hl
+      intro hm
+      simp only [List.mem_append, List.mem_cons, List.mem_singleton, List.not_mem_nil, or_false] at hm
+      rcases hm with hm | ((((hm | hm) | hm) | hm) | hm)
+      · exact bB (by simpa using hm)
+      · exact hl hm
+      · exact hs hm
+      · exact hl hm
+      · cases hm
+      · cases hm
+    have := noInfix_append_of_notMem (p' := "LOCKCOMMENT".toList ++ padSix 0) hB1
+      (by rw [← e]; exact hnoPh false 0 (by omega))
+    rw [e]
+    simpa [List.append_assoc] using this
+  have hsubB : ∀ repl, substPh kwBlock 0 repl (fmtEntries .foam 0 (foamSD i D).data) =
+      (repl ++ (('\n' :: foamFileText) ++ ((kwLine ++ padSix i) ++ spaces 13 ++ (kwLine ++ padSix i) ++ [';'] ++
+          ('\n' :: fmtEntries .foam 0 D))), true) := by
+    intro repl
+    rw [hraw, C12.C12_substPh_literal (kw := kwBlock) (c := 'B') (kw' := "LOCKCOMMENT".toList) (by decide) (by decide) 0
+      repl [] (spaces 12) _ (by simp) (by decide) (C01.spaces_ws 12), C12.substPh_noInfix kwBlock 0 repl _ hpostB]
+    rfl
+  have hblock : insertBlockComments .foam [(0, banner)] (fmtEntries .foam 0 (foamSD i D).data) =
+      (banner ++ '\n' :: foamFileText) ++ (kwLine ++ padSix i) ++ spaces 13 ++ (kwLine ++ padSix i) ++ [';'] ++
+          ('\n' :: fmtEntries .foam 0 D) := by
+    rw [C10.insertBlock_single .foam 0 banner _ (by rw [hsubB]) (by rw [makeDefault_banner]; exact bne),
+      makeDefault_banner, hsubB]
+    simp [List.append_assoc]
+  -- line comments
+  have hpostL : isInfix (kwLine ++ padSix i) ('\n' :: fmtEntries .foam 0 D) = false := by
+    rw [C02.isInfix_cons, show kwLine ++ padSix i = C12W.phWord true i from rfl, hnoPh true i hi]
+    rfl
+  have hline : insertLineComments [(i, sepLine)] ((banner ++ '\n' :: foamFileText) ++ (kwLine ++ padSix i) ++ spaces 13 ++
+      (kwLine ++ padSix i) ++ [';'] ++ ('\n' :: fmtEntries .foam 0 D)) = foamHeader ++ fmtEntries .foam 0 D := by
+    simp only [insertLineComments, List.foldl_cons, List.foldl_nil]
+    rw [C12.C12_substPh_literal (kw := kwLine) (c := 'L') (kw' := "INECOMMENT".toList) (by decide) (by decide) i
+      sepLine _ (spaces 13) _ bL (by decide) (C01.spaces_ws 13), C12.substPh_noInfix kwLine i sepLine _ hpostL,
+      ← foamHeaderText_eq]
+    simp [foamHeaderText, List.append_assoc]
+  have hdrop : dropUnderscoreEs .foam (foamSD i D).data = (foamSD i D).data :=
+    C10.C10_drop_id _ (foamSD_noUnderscore hu)
+  have hplain : fmtPlain .foam D = removeTrailingSpaces (fmtEntries .foam 0 D) := by
+    rw [C10.C10_input_unchanged, C10.C10_drop_id D hu, C10.Foam.hoist_id_f hdom]
+  have e1 : (foamSD i D).blockC = [(0, banner)] := rfl
+  have e2 : (foamSD i D).incl = [] := rfl
+  have e3 : (foamSD i D).lineC = [(i, sepLine)] := rfl
+  simp only [fmtSD, hdrop, foamSD_hoist hk, e1, e2, e3, hblock, insertIncludes, List.foldl_nil, hline, rts_header, hplain]
+
+
+/-- the SDict of a written file has unique keys at every level -/
+theorem foamSD_nodup {i : Nat} (hi : i ≤ 999999) {D : Entries} (hp : C07.NoPhEs D) (hn : NodupKeysV (.dict D))
+    (hff : Key.str "FoamFile".toList ∉ keys D) : NodupKeysV (.dict (foamSD i D).data) := by
+  have hk := C12.noPh_keys hp
+  have h1 : Key.str C12.hdrPh ∉ keys D := C12.hdr_not_mem hp
+  have h3 : Key.str (linePh i) ∉ keys D := fun hm => by
+    have := hk _ hm
+    rw [linePh_isPh hi] at this
+    cases this
+  have n1 := (linePh_ne i).1
+  have n2 := (linePh_ne i).2
+  have n3 := foamFile_facts.2.2.2.2
+  refine ⟨?_, ?_⟩
+  · show (Key.str C12.hdrPh :: Key.str "FoamFile".toList :: Key.str (linePh i) :: keys D).Nodup
+    refine List.nodup_cons.mpr ⟨?_, List.nodup_cons.mpr ⟨?_, List.nodup_cons.mpr ⟨h3, hn.1⟩⟩⟩
+    · simp only [List.mem_cons, not_or]
+      exact ⟨fun e => n3 e.symm, fun e => n1 e.symm, h1⟩
+    · simp only [List.mem_cons, not_or]
+      exact ⟨fun e => n2 e.symm, hff⟩
+  · show NodupKeysEs (C12.hdrEntry :: foamFileEntry :: lineEntry i :: D)
+    simp only [C12.hdrEntry, foamFileEntry, lineEntry, NodupKeysEs, NodupKeysV, true_and]
+    exact ⟨⟨foamFileDict_ok.2.1, foamFileDict_ok.2.2⟩, hn.2⟩
+
+/-- `DictReader.read` (default options) of a file whose text parses to the SDict of a written file: the stages above
+    the parser change nothing -/
+theorem readFile_of_parse_foam {i : Nat} {D : Entries} {c c' : Counter} (ev : Str → EvalResult) (p : Comps) (text : Str)
+    (hi : i ≤ 999999) (hparse : parseNative true (pathStr p.dropLast) c text = .ok (foamSD i D, c'))
+    (hp : C07.NoPhEs D) (hn : NodupKeysV (.dict D)) (hff : Key.str "FoamFile".toList ∉ keys D)
+    (hj : isJsonPath p = false) (hx : isXmlPath p = false) (hr : resolveSpelled p = p) :
+    readFile ev [(p, .native text)] {} c p = .ok (.ok (foamSD i D) c') := by
+  have hcl := foamSD_clean hi hp hn hff
+  have hmi := C01.mergeIncludes_clean [(p, .native text)] true (foamSD i D) p.dropLast c' rfl hcl
+    (foamSD_nodup hi hp hn hff)
+  have hev := C01.evalExpressions_noexpr ev (foamSD i D) rfl
+  have hpf : parseFile [(p, .native text)] true c p = .ok (foamSD i D, c') := by
+    simp only [parseFile, hx, hr, C01.fs_get_single, hj, hparse]
+    rfl
+  simp only [readFile, hpf, bind, Except.bind, pure, Except.pure]
+  simp only [if_true, hmi, hev]
+  rfl
+
+/-- what is left of the data read when the entries the header accounts for are taken out: the two comment
+    placeholder entries and the `FoamFile` entry -/
+def dropHeaderEntries (es : Entries) : Entries :=
+  es.filter fun e => !C07.isPhKey e.1 && !decide (e.1 = .str "FoamFile".toList)
+
+theorem dropHeader_foamSD {i : Nat} (hi : i ≤ 999999) {D : Entries} (hp : C07.NoPhEs D)
+    (hff : Key.str "FoamFile".toList ∉ keys D) : dropHeaderEntries (foamSD i D).data = D := by
+  have hk := C12.noPh_keys hp
+  have e1 : C07.isPhKey C12.hdrEntry.1 = true := C12.hdrPh_isPh
+  have e3 : C07.isPhKey (lineEntry i).1 = true := linePh_isPh hi
+  have e2 : decide (foamFileEntry.1 = Key.str "FoamFile".toList) = true := decide_eq_true rfl
+  unfold dropHeaderEntries
+  show List.filter _ (C12.hdrEntry :: foamFileEntry :: lineEntry i :: D) = D
+  rw [List.filter_cons_of_neg (by rw [e1]; simp), List.filter_cons_of_neg (by rw [e2]; simp),
+    List.filter_cons_of_neg (by rw [e3]; simp)]
+  refine List.filter_eq_self.mpr fun e he => ?_
+  have h1 := hk e.1 (List.mem_map_of_mem he)
+  have h2 : e.1 ≠ Key.str "FoamFile".toList := fun h => hff (by rw [← h]; exact List.mem_map_of_mem he)
+  rw [h1, decide_eq_false h2]
+  rfl
+
+/-- the keys of the private-key-free normalised copy are keys of the dict -/
+theorem keys_dropped_sub (d : Entries) : ∀ k ∈ keys (normEs (dropUnderscoreEs .foam d)), k ∈ keys d := by
+  intro k hk
+  rw [C01.keys_normEs, C10.C10_drop_only_underscore] at hk
+  simp only [keys, List.map_map, List.mem_map, Function.comp] at hk
+  obtain ⟨e, he, rfl⟩ := hk
+  exact List.mem_map_of_mem (List.mem_filter.mp he).1
+
+theorem noFoamFile_keys {d : Entries} (h : NoFoamFileKey d) : Key.str "FoamFile".toList ∉ keys d := by
+  intro hm
+  obtain ⟨e, he, hk⟩ := List.mem_map.mp hm
+  exact h e he hk
+
+theorem noFoamFile_dropped {d : Entries} (h : NoFoamFileKey d) : NoFoamFileKey (normEs (dropUnderscoreEs .foam d)) := by
+  intro e he hk
+  exact noFoamFile_keys h (keys_dropped_sub d _ (by rw [← hk]; exact List.mem_map_of_mem he))
+
+theorem rts_foamHeader : removeTrailingSpaces foamHeader = foamHeader := by
+  have := rts_header []
+  rwa [List.append_nil, rts_nil, List.append_nil] at this
+
+/-- no block comment of the table has its placeholder entry in the text: the text gets the Foam header in front -/
+theorem insertBlock_none (txt : Str) : ∀ (tbl : Tbl Str), (∀ e ∈ tbl, (substPh kwBlock e.1 [] txt).2 = false) →
+    insertBlockComments .foam tbl txt = foamHeader ++ txt := by
+  intro tbl h
+  have key : ∀ (tbl : Tbl Str) (first : Bool), (∀ e ∈ tbl, (substPh kwBlock e.1 [] txt).2 = false) →
+      ∃ f', tbl.foldl (fun (acc : Str × Str × Bool) e =>
+        let (s, sofar, first) := acc
+        let bc := if first then makeDefaultBlockComment .foam e.2 else e.2
+        let bc := if isInfix bc sofar then [] else bc
+        let (s', found) := substPh kwBlock e.1 bc s
+        if found then (s', sofar ++ bc, false) else (s, sofar, false)) (txt, [], first) = (txt, [], f') := by
+    intro tbl
+    induction tbl with
+    | nil => intro first _; exact ⟨first, rfl⟩
+    | cons e tbl ih =>
+      intro first hh
+      have he := hh e List.mem_cons_self
+      simp only [List.foldl_cons]
+      have hf : ∀ r, (substPh kwBlock e.1 r txt).2 = false := fun r => by rw [C10.substPh_flag kwBlock e.1 r [] txt]; exact he
+      rcases hs : substPh kwBlock e.1 (if isInfix (if first then makeDefaultBlockComment .foam e.2 else e.2) [] then []
+        else (if first then makeDefaultBlockComment .foam e.2 else e.2)) txt with ⟨s', found⟩
+      have := hf (if isInfix (if first then makeDefaultBlockComment .foam e.2 else e.2) [] then []
+        else (if first then makeDefaultBlockComment .foam e.2 else e.2))
+      rw [hs] at this
+      simp only [] at this
+      subst this
+      simp only [hs, Bool.false_eq_true, if_false]
+      exact ih false fun e' he' => hh e' (List.mem_cons_of_mem _ he')
+  obtain ⟨f', hf'⟩ := key tbl true h
+  simp only [insertBlockComments]
+  rw [hf']
+  simp [C10.makeDefault_foam_nil]
+
+
+/-! ## property theorems -/
+
+/-- **C10_sd_text.**  The text the Foam writer produces for an `SDict` without own comments / includes — for EVERY
+    data `d`, no domain hypothesis — is the Foam header (banner, `FoamFile` block, separator line; `foamHeaderText`,
+    spelled out in `banner_str`, `foamFileText_str`, `sepLine_str`) followed by the text the plain-dict writer
+    produces for `d` (private keys dropped at every level: `C10.C10_underscore`). -/
+theorem C10_sd_text (d : Entries) : fmtSD .foam { data := d } = some (foamHeaderText ++ fmtPlain .foam d) := by
+  rw [foamHeaderText_eq]
+  simp only [fmtSD, C10.C10_banner_raw, insertIncludes, insertLineComments, List.foldl_nil, rts_header]
+  rfl
+
+/-- the raw text of the data of an SDict, before the comment / include insertion passes -/
+def rawText (s : SD) : Str := fmtEntries .foam 0 (hoistPlaceholders (dropUnderscoreEs .foam s.data))
+
+/-- **C10_sd_starts_with_banner.**  Whenever `fmtSD .foam` succeeds on an SDict none of whose block comments has its
+    placeholder entry in the data (in particular: an SDict without block comments), the text starts with the Foam
+    header: the banner, then the `FoamFile` block, then the separator line. -/
+theorem C10_sd_starts_with_banner (s : SD) (t : Str)
+    (hno : ∀ e ∈ s.blockC, (substPh kwBlock e.1 [] (rawText s)).2 = false) (h : fmtSD .foam s = some t) :
+    ∃ r, t = foamHeaderText ++ r := by
+  obtain ⟨hI, hL, hr, hlast⟩ := C10.foamHeader_chars
+  rw [foamHeaderText_eq]
+  have hb := insertBlock_none (rawText s) s.blockC hno
+  simp only [fmtSD] at h
+  rw [show fmtEntries .foam 0 (hoistPlaceholders (dropUnderscoreEs .foam s.data)) = rawText s from rfl, hb] at h
+  split at h
+  · cases h
+  · next t1 h1 =>
+    obtain ⟨r1, rfl⟩ := C10.insertIncludes_skip foamHeader hI _ _ _ h1
+    obtain ⟨r2, e2⟩ := C10.insertLineComments_skip foamHeader hL s.lineC r1
+    simp only [Option.some.injEq] at h
+    rw [e2, rts_header] at h
+    exact ⟨_, h.symm⟩
+
+/-- the special case "no block comment at all", with the three parts of the header named -/
+theorem C10_sd_starts_with_banner' (s : SD) (t : Str) (hb : s.blockC = []) (h : fmtSD .foam s = some t) :
+    ∃ r, t = banner ++ ['\n'] ++ foamFileText ++ sepLine ++ ['\n'] ++ r :=
+  C10_sd_starts_with_banner s t (by rw [hb]; intro e he; cases he) h
+
+/-- the hypotheses of the round trip on a dict `d` (those of `C10.C10_roundtrip_file`, plus: no top-level key
+    `FoamFile`) -/
+structure Hyp (d : Entries) (c : Counter) (target : Comps) : Prop where
+  dom : DomC01 .foam (normEs (dropUnderscoreEs .foam d)) = true
+  cnt : C02.countQuotedEs (srcOfEs .foam (normEs (dropUnderscoreEs .foam d))) ≤ Gen.counterLimit + 1
+  noFF : NoFoamFileKey d
+  hc : C13.ValidCounter Gen.counterLimit c
+  hj : isJsonPath target = false
+  hx : isXmlPath target = false
+  hr : resolveSpelled target = target
+
+/-- the text written for `SDict(d)` -/
+def sdText (d : Entries) : Str := foamHeaderText ++ fmtPlain .foam (normEs d)
+
+theorem sdText_dropped (d : Entries) :
+    sdText d = foamHeader ++ fmtPlain .foam (normEs (dropUnderscoreEs .foam d)) := by
+  rw [sdText, foamHeaderText_eq, C10.normEs_drop, C10.C10_fmtPlain_drop]
+
+/-- reading the written file -/
+theorem readFile_sd {d : Entries} {c : Counter} {target : Comps} (ev : Str → EvalResult) (H : Hyp d c target) :
+    ∃ c', C13.ValidCounter Gen.counterLimit c' ∧
+      readFile ev [(target, .native (sdText d))] {} c target =
+        .ok (.ok (foamSD (Counter.next Gen.counterLimit c).1 (normEs (dropUnderscoreEs .foam d))) c') := by
+  have hu : C10.NoUnderscoreEs (normEs (dropUnderscoreEs .foam d)) := by rw [C10.normEs_drop]; exact C10.C10_underscore _
+  have hff := noFoamFile_dropped H.noFF
+  obtain ⟨c', hv, hparse⟩ := read_foam_parse (c := c) (pathStr target.dropLast) H.dom hu hff H.cnt H.hc
+  rw [C01.normEs_idem, ← sdText_dropped] at hparse
+  obtain ⟨hp, hn⟩ := C10.norm_invariants_foam H.dom
+  rw [C01.normEs_idem] at hp hn
+  exact ⟨c', hv, readFile_of_parse_foam ev target _ (C13.next_le H.hc) hparse hp hn (noFoamFile_keys hff) H.hj H.hx H.hr⟩
+
+/-- **C10_roundtrip_sd** (DictWriter + DictReader, OpenFOAM flavour, `SDict` source).  For a dict `d` — private `_`
+    keys allowed at every level — whose normalised private-key-free copy `D' = normEs (dropUnderscoreEs .foam d)` lies
+    in the Foam value domain and that has no top-level key `FoamFile`:
+
+    * writing `SDict(d)` (`_retype_values` first: `normEs`) gives the Foam header followed by the plain Foam text;
+    * reading that file with the default options succeeds and returns exactly `foamSD i D'`: the data is
+      `BLOCKCOMMENT000000 ↦ BLOCKCOMMENT000000`, `FoamFile ↦ {version: 2.0, format: 'ascii', class: 'dictionary',
+      object: 'foamDict'}`, `LINECOMMENT<i> ↦ LINECOMMENT<i>` (`i` = the id the counter hands out first), then the
+      entries of `D'` in order; the banner is block comment 0, the separator line is line comment `i`;
+    * taking out the two placeholder entries and the `FoamFile` entry leaves `D'`; no key with a leading `_` is left. -/
+theorem C10_roundtrip_sd {d : Entries} {c : Counter} {target : Comps} (ev : Str → EvalResult) (H : Hyp d c target) :
+    fmtSD .foam { data := normEs d } = some (sdText d) ∧
+    (∃ c', C13.ValidCounter Gen.counterLimit c' ∧
+      readFile ev [(target, .native (sdText d))] {} c target =
+        .ok (.ok { data := (.str C12.hdrPh, .leaf (.str C12.hdrPh)) ::
+                            (.str "FoamFile".toList, .dict foamFileDict) ::
+                            (.str (linePh (Counter.next Gen.counterLimit c).1),
+                              .leaf (.str (linePh (Counter.next Gen.counterLimit c).1))) ::
+                            normEs (dropUnderscoreEs .foam d),
+                   lineC := [((Counter.next Gen.counterLimit c).1, sepLine)],
+                   blockC := [(0, banner)] } c')) ∧
+    dropHeaderEntries (foamSD (Counter.next Gen.counterLimit c).1 (normEs (dropUnderscoreEs .foam d))).data =
+      normEs (dropUnderscoreEs .foam d) ∧
+    C10.NoUnderscoreEs (normEs (dropUnderscoreEs .foam d)) := by
+  obtain ⟨hp, hn⟩ := C10.norm_invariants_foam H.dom
+  rw [C01.normEs_idem] at hp
+  refine ⟨C10_sd_text _, readFile_sd ev H, dropHeader_foamSD (C13.next_le H.hc) hp
+    (noFoamFile_keys (noFoamFile_dropped H.noFF)), ?_⟩
+  rw [C10.normEs_drop]; exact C10.C10_underscore _
+
+/-- **C10_sd_header_once.**  Writing the SDict that was read from a written file gives the same text, byte for byte:
+    the banner it carries as block comment 0 is an own ` C++ ` header naming OpenFOAM, so no second header is put in
+    front; the `FoamFile` entry is written where the header's `FoamFile` block stood. -/
+theorem C10_sd_header_once {d : Entries} {c : Counter} {target : Comps} (ev : Str → EvalResult) (H : Hyp d c target) :
+    ∃ sd c', fmtSD .foam { data := normEs d } = some (sdText d) ∧
+      readFile ev [(target, .native (sdText d))] {} c target = .ok (.ok sd c') ∧
+      fmtSD .foam sd = some (sdText d) := by
+  obtain ⟨c', _, hread⟩ := readFile_sd ev H
+  have hu : C10.NoUnderscoreEs (normEs (dropUnderscoreEs .foam d)) := by rw [C10.normEs_drop]; exact C10.C10_underscore _
+  obtain ⟨hp, _⟩ := C10.norm_invariants_foam H.dom
+  rw [C01.normEs_idem] at hp
+  refine ⟨_, c', C10_sd_text _, hread, ?_⟩
+  rw [write_foamSD (C13.next_le H.hc) H.dom hu (C12.noPh_keys hp), sdText_dropped]
+
+/-- the fixed point without the file system: on the Foam domain the SDict with the three header entries and the two
+    comments is written exactly as the SDict with the bare data -/
+theorem C10_sd_header_once' {i : Nat} (hi : i ≤ 999999) {D : Entries} (hdom : DomC01 .foam D = true)
+    (hu : C10.NoUnderscoreEs D) : fmtSD .foam (foamSD i D) = fmtSD .foam { data := D } := by
+  have hk : ∀ k ∈ keys D, C07.isPhKey k = false := by
+    have := C12.noPh_keys (C10.norm_invariants_foam hdom).1
+    rwa [C01.keys_normEs] at this
+  rw [write_foamSD hi hdom hu hk, C10_sd_text, foamHeaderText_eq]
+
+/-! ### the same through the API model (`writeText`, `apiRun`: Model/Api.lean) -/
+
+theorem flavor_foam {p : Comps} (h : C10.isFoamPath p = true) : flavorOfPath p = some .foam := by
+  obtain ⟨hj, hx⟩ := C10.foamPath_dispatch h
+  unfold C10.isFoamPath at h
+  unfold flavorOfPath
+  simp only [hj, hx, Bool.or_self, Bool.false_eq_true, if_false]
+  cases hl : p.getLast? with
+  | none => rw [hl] at h; cases h
+  | some n => rw [hl] at h; simp only [h, if_true]
+
+/-- `DictWriter.write(SDict(d), 'x.foam')` on a target that does not exist: the text of `C10_sd_text` -/
+theorem C10_sd_writeText (ev : Str → EvalResult) (fs : FS) (target : Comps) (mode : Str) (d : Entries) (c : Counter)
+    (hf : C10.isFoamPath target = true) (hnew : fs.get (resolveSpelled target) = none) :
+    writeText ev fs target mode false (.sd { data := d }) c = .ok (sdText d, c) := by
+  simp only [writeText, flavor_foam hf, hnew, Arg.retype, Bool.false_eq_true, if_false, fmtArg, C10_sd_text, sdText]
+
+/-- `SDict(d).dump('x.foam')` into an empty file system, then `DictReader.read('x.foam')` -/
+theorem C10_sd_api {d : Entries} {c : Counter} {target : Comps} (ev : Str → EvalResult) (H : Hyp d c target)
+    (hf : C10.isFoamPath target = true) :
+    ∃ c', (apiRun ev { fs := [], c := c } [.dump { data := d } target, .read target {}]).1.fs = [(target, .native (sdText d))] ∧
+      (apiRun ev { fs := [], c := c } [.dump { data := d } target, .read target {}]).1.c = c' ∧
+      ∃ sd, (apiRun ev { fs := [], c := c } [.dump { data := d } target, .read target {}]).2.length = 2 ∧
+        sd = foamSD (Counter.next Gen.counterLimit c).1 (normEs (dropUnderscoreEs .foam d)) := by
+  obtain ⟨c', _, hread⟩ := readFile_sd ev H
+  have hw := C10_sd_writeText ev [] target ['a'] d c hf (by rfl)
+  refine ⟨c', ?_, ?_, _, ?_, rfl⟩ <;>
+    simp [apiRun, apiStep, writeTo, hw, FS.set, H.hr, C01.fs_get_single, hread]
+
 end DictIO.C10sd
